@@ -79,8 +79,20 @@ func (n *GroupByNode) UnmarshalJSON(data []byte) error {
 	if raw.Type != "groupBy" {
 		return fmt.Errorf("error unmarshaling node %d of type %s as GroupByNode", raw.ID, raw.Type)
 	}
+	n.Dimensions = unmarshalDimensions(n.Dimensions)
 	n.setID(raw.ID)
 	return nil
+}
+
+// unmarshalDimensions restores the '*' dimension, which is marshaled as
+// {"typeOf": "star"} and decoded as a generic map.
+func unmarshalDimensions(dimensions []interface{}) []interface{} {
+	for i, d := range dimensions {
+		if m, ok := d.(map[string]interface{}); ok && m[NodeTypeOf] == "star" {
+			dimensions[i] = &ast.StarNode{}
+		}
+	}
+	return dimensions
 }
 
 func (n *GroupByNode) validate() error {
